@@ -9,6 +9,7 @@ REGISTRY = {
     "C02": ("harness.checks.mesh_checks", "C02"),
     "C10": ("harness.checks.mesh_checks", "C10"),
     "C06": ("harness.checks.dorfler_check", "C06"),
+    "C19": ("harness.checks.grade_check", "C19"),
 }
 
 
